@@ -24,7 +24,7 @@ REAL = ["tpmstream.io.hex.marshal", "tpmstream.io.swtpm_log.marshal", "tpmstream
 ASSUMPTIONS = ["reference readers in sim/medium.py define 'the bytes a container carries'",
                "auto-detection is compared only for renderings that start with a hex pair / pcapng magic / binary tag and hold at least the two bytes detection looks at",
                "swtpm logs are generated in the documented layout only (no small-alphabet sampling of its scanner)"]
-TIERS = {"quick": {"runs": 20000, "budget": 75}, "thorough": {"runs": 400000, "budget": 780}}
+TIERS = {"quick": {"runs": 20000, "budget": 150}, "thorough": {"runs": 400000, "budget": 780}}
 ALPHABET = [b"0", b"a", b"F", b"7", b" ", b"\n", b"+", b"-", b"_", b"x", b"g", b"\t"]
 BAD_CHARS = [b"+", b"-", b"_", b"x", b"g", b"G", b".", b":", b"z", b"#"]
 
